@@ -129,14 +129,14 @@ Definition bicgstab_ref (A P : vec -> vec) (left : bool) (maxiter : nat) (tol ab
   with_rhs ns f x0 (fun nf =>
     let eps := smax (nf * tol) abstol in
     let r0 := if left then P (vsub f (A x0)) else vsub f (A x0) in
-    let res0 := if ca then sofQ (2 # 1)%Q * eps else rnorm r0 in
+    let res0 := rnorm r0 in
     let fin := fun o : option (nat * S * vec) =>
                  match o with Some (k, res, x) => Some (k, res / nf, x) | None => None end in
     match maxiter with
     | O => Some (0, res0 / nf, x0)
     | SS fl =>
-      if sltb eps res0 then
-        (* first step: p = r0 *)
+      if sltb eps res0 || ca then
+        (* first step: p = r0 (check_after: always do the first step) *)
         match bs_ref_body K Y eps r0 0 x0 r0 r0 (rdot r0 r0) with
         | BsFail => None
         | BsDone k res x => Some (k, res / nf, x)
